@@ -234,6 +234,7 @@ FUNC_ALIASES = {
     "builtins.len": "len", "builtins.float": "float", "builtins.int": "int", "builtins.str": "str",
     "builtins.list": "list", "builtins.range": "range", "builtins.sorted": "sorted",
     "sklearn.utils.validation.check_array": "check_array",
+    "spec.relu": "relu", "spec.ind": "ind",
     "pandas.Series": "Series", "pandas.DataFrame": "DataFrame", "pandas.concat": "concat",
 }
 METHOD_ALIASES = {
@@ -361,6 +362,10 @@ class Canon:
                 return x
             if c is FALSE:
                 return y
+            if x is TRUE and y is FALSE:
+                return c
+            if x is FALSE and y is TRUE:
+                return self._not(c)
             return mk("ite", c, x, y)
         if op == "attr":
             base = self.canon(a[0])
